@@ -130,8 +130,54 @@ def work_names(arg):
     return u
 
 
+# ---- '?=' together with another assignment to the same attribute: the compiler documents this as an error
+#      ('Cannot use "?=" operator on multiple assignments'); it must be one in every order and nesting, never a grammar
+#      that compiles and then loses values or crashes while loading
+def boolmix_family():
+    for other in ("s=INT", "s+=INT", "s*=INT", "s='k'", "s+=R"):
+        for tmpl in ("M: s?='b' {o}; R: 'r' n=INT;", "M: {o} s?='b'; R: 'r' n=INT;", "M: s?='b' ('+' {o})*; R: 'r' n=INT;", "M: ({o})? s?='b'; R: 'r' n=INT;",
+                     "M: s?='b' | {o}; R: 'r' n=INT;", "M: ({o} | 'x') s?='b'; R: 'r' n=INT;", "M: (s?='b' {o})#; R: 'r' n=INT;"):
+            yield tmpl.format(o=other)
+
+
+def work_boolmix(arg):
+    from textx import metamodel_from_str
+    from textx.exceptions import TextXError
+
+    u = Unit()
+    for gtext in arg:
+        cid = ["boolmix", gtext]
+        try:
+            mm = metamodel_from_str(gtext)
+            outcome = "compiled"
+        except TextXError as e:
+            outcome = "refused: " + str(e.message)[:60]
+        except Exception as e:
+            outcome = "%s: %s" % (type(e).__name__, str(e)[:80])
+        u.case(cid, nontrivial=True, sample={"grammar": gtext, "outcome": outcome})
+        u.count("boolmix " + outcome.split(":")[0])
+        if not outcome.startswith("refused"):
+            extra = ""
+            if outcome == "compiled":
+                for text in ("b 7", "7 b", "b + 7", "b k", "b r 1", "7", "b"):
+                    try:
+                        m = mm.model_from_str(text)
+                        extra += " | %r -> s=%r" % (text, m.s)
+                    except Exception as e:
+                        extra += " | %r -> %s" % (text, type(e).__name__)
+            u.fail(cid, {"boolmix": gtext}, sig="boolmix " + outcome.split(":")[0], what="%s %s%s" % (gtext, outcome, extra[:300]))
+    return u
+
+
+def replay_boolmix(gtext):
+    u = work_boolmix([gtext])
+    return not u.fails, {"grammar": gtext, "failures": [f["what"] for f in u.fails]}
+
+
 def run(ctx):
     c01.selfcheck()
+    bm = list(boolmix_family())
+    ctx.pmap(work_boolmix, [bm[i:i + 7] for i in range(0, len(bm), 7)])
     nf = list(names_family())
     ctx.pmap(work_names, [nf[i:i + 5] for i in range(0, len(nf), 5)])
     bodies = list(family(ctx.tier))
@@ -147,4 +193,7 @@ def run(ctx):
     }, ["multiplicity rule: an attribute is 'many' iff some path through the rule body can execute two assignments to it (repetition counts as many)"]
 
 
-replay = c01.replay
+def replay(p):
+    if "boolmix" in p:
+        return replay_boolmix(p["boolmix"])
+    return c01.replay(p)
